@@ -368,6 +368,10 @@ func (b *batchRun) exec(arg Obs) (any, error, error) {
 		}
 	case b.cfg.Sched == "free0":
 		// no pause at all
+	case b.cfg.Sched == "cancelfeed":
+		if item != 2 {
+			time.Sleep(30 * time.Millisecond) // busy, not watching the context
+		}
 	case b.cfg.Sched == "waitcancel":
 		if item == 2 {
 			time.Sleep(10 * time.Millisecond) // item 1 is waiting between its attempts by now
